@@ -4,7 +4,7 @@
    every positive scale factor and every magnitude (10^30 and 2^53 are not special). *)
 From Coq Require Import ZArith QArith List Bool.
 From VL Require Import Prelude.PyDict Model.GetNBest Model.HighestAverages Model.Condorcet
-     Proofs.GetNBest_proofs Proofs.QOrd Proofs.Scale_proofs.
+     Proofs.GetNBest_proofs Proofs.QOrd Proofs.Scale_proofs Proofs.Minimax_proofs.
 Import ListNotations.
 
 (* plurality / every rule that ends in get_n_best of exact totals *)
@@ -27,6 +27,9 @@ Theorem C11_scale_copeland : forall (k : Z) so v n, (0 < k)%Z -> copeland so (sc
 Proof. intros k so v n Hk. exact (copeland_scale k Hk so v n). Qed.
 Theorem C11_scale_smith_schwartz : forall (k : Z) v ties, (0 < k)%Z -> smith_schwartz (scalez k v) ties = smith_schwartz v ties.
 Proof. intros k v ties Hk. exact (smith_schwartz_scale k Hk v ties). Qed.
+
+Theorem C11_scale_minimax : forall (k : Z) s v n, (0 < k)%Z -> minimax s (scalez k v) n = minimax s v n.
+Proof. intros k s v n Hk. exact (minimax_scale k Hk s v n). Qed.
 
 (* totals that differ - by one vote in 10^30 or by anything else - are never reported as tied,
    and equal rational totals (whatever their representation: 1/2 = 2/4) always are tied together *)
@@ -53,9 +56,8 @@ Qed.
 
 (* clauses not yet proved for all inputs (decided per explored case by the metamorphic stream) *)
 Definition C11_scale_full_statement : Prop :=
-  forall (k : Z) v n sc, (0 < k)%Z ->
-    schulze (scalez k v) (candidates v) n = schulze v (candidates v) n /\
-    minimax sc (scalez k v) n = minimax sc v n.
+  forall (k : Z) v n, (0 < k)%Z ->
+    schulze (scalez k v) (candidates v) n = schulze v (candidates v) n.
 
 (* non-vacuity: a tie at the cut survives scaling by 10^30 + 7, and 10^30 vs 10^30 + 1 is not a tie *)
 Example C11_example :
@@ -71,5 +73,6 @@ Print Assumptions C11_scale_pairwise_wins.
 Print Assumptions C11_scale_condorcet_winner.
 Print Assumptions C11_scale_copeland.
 Print Assumptions C11_scale_smith_schwartz.
+Print Assumptions C11_scale_minimax.
 Print Assumptions C11_tie_exact.
 Print Assumptions C11_one_vote_apart.
